@@ -247,8 +247,10 @@ def battery(quick=True):
         # single-object patches and a patch without objects in any bin
         def singles():
             L = layouts["equator"]
-            data = patched(L, [1, 1, 25, 1], 1.0 * deg)
-            rand = patched(L, [20, 1, 20, 20], 1.0 * deg)
+            # centres are given by the data catalog: keep every random point nearest to its own centre (0.3 + 0.6 < half the
+            # smallest centre separation), otherwise a centre without objects makes the creation fail - correctly
+            data = patched(L, [1, 1, 25, 1], 0.3 * deg)
+            rand = patched(L, [20, 1, 20, 20], 0.6 * deg)
             rand.loc[rand.pid == 3, "z"] = 2.5          # patch 3 of the randoms lies outside every bin
             d = make_cat(data)
             r = make_cat(rand, centres=d)
